@@ -298,6 +298,12 @@ func Explore[S any](t *testing.T, c Check[S]) {
 			}
 			sc := c.Draw(rt, env.Tier)
 			res := c.Run(t, sc, failing)
+			if be := sched.TakeBubbleError(); be != "" && res.HarnessErr == "" {
+				res.HarnessErr = "bubble root goroutine blocked for good after the run: " + be
+				if len(res.HarnessErr) > 6000 {
+					res.HarnessErr = res.HarnessErr[:6000]
+				}
+			}
 			if dumpRuns != nil && !failing {
 				raw, _ := json.Marshal(sc)
 				fmt.Fprintf(dumpRuns, "%d %s steps=%d %016x %s\n", st.Runs, res.TraceHash, res.Steps, hashString(string(raw)), raw)
